@@ -340,7 +340,9 @@ func (c *EWCase) Run() string {
 		}
 		return desc + " panicked: " + pan
 	}
+	ewLast = ewOutcome{}
 	if mustRefuse {
+		ewLast.Refused = true
 		rec.Class("refusal-expected")
 		if lerr == nil {
 			return desc + fmt.Sprintf(": must be refused (unsupported type, mismatched shapes or element types) but returned %v", shapeOf(res))
@@ -451,6 +453,8 @@ func (c *EWCase) Run() string {
 	if m := compareAt(rd, want, eqU); m != "" {
 		return desc + ": result: " + m
 	}
+	ewLast.Result = arrOf(rd)
+	ewLast.Computed = true
 	// ---- nothing but the destination was modified
 	if dest != A {
 		if m := A.unchanged("operand a"); m != "" {
@@ -698,3 +702,12 @@ func subVal(a, b interface{}) interface{} {
 
 // maskedOut marks positions masked in an operand (treated like undefined ones by the comparison).
 var maskedOut = undefinedVal{}
+
+// ewOutcome is what the last EWCase.Run observed (used by the cross-type check C17).
+type ewOutcome struct {
+	Refused  bool
+	Computed bool
+	Result   Arr
+}
+
+var ewLast ewOutcome
